@@ -75,6 +75,7 @@ def cases(tier, seed):
         for cfg in ('gaussian-class', 'default'):
             out.append((('struct', name), cfg, seed, 'roundtrip'))
     out.append((('struct', 'near-collinear'), 'gaussian-class', seed, 'near-collinear'))
+    out.append((('struct', 'crossed-design'), 'gaussian-class', seed, 'crossed-design'))
     out.sort(key=lambda c: (c[1] != 'default', -c[0][0] if isinstance(c[0][0], int) else 0))
     return out
 
@@ -177,6 +178,49 @@ def _near_collinear(r, case):
     return r
 
 
+def _crossed_design(r, case):
+    """A balanced crossed design: `dose` and `temp` have correlation exactly 0, `yield` depends on both. A conditioned column
+    that is uncorrelated with the free column still matters through the other conditioned column."""
+    lv = np.array([-1.5, -0.5, 0.5, 1.5])
+    dose = np.repeat(lv, 4 * 6)
+    temp = np.tile(np.repeat(lv, 6), 4)
+    noise = np.tile(stats.norm.ppf(A.midpoints(6)), 16) * 0.3
+    df = pd.DataFrame({'dose': dose, 'temp': temp, 'yield': dose + temp + noise})
+    gm = tables.fit_gm(df, 'gaussian-class')
+    C = np.asarray(gm.correlation.to_numpy(), float)
+    cols = list(df.columns)
+    uni = dict(zip(cols, gm.univariates))
+    r.tr()
+    r.nontriv()
+    r.state(('crossed-design',))
+    for given, free in ((('dose', 'yield'), ['temp']), (('temp', 'yield'), ['dose']), (('yield', 'dose'), ['temp'])):
+        vals = {given[0]: 0.5, given[1]: -0.7}
+        zref = np.array([stats.norm.ppf(np.clip(float(np.asarray(uni[c_].cdf(np.array([vals[c_]])))[0]), EPS, 1 - EPS)) for c_ in given])
+        mu_ref, S_ref = schur(C, cols, free, list(given), zref)
+        gm.set_random_state(3)
+        with seams.seam() as log:
+            r.tr()
+            try:
+                gm.sample(3, conditions=dict(vals))
+            except Exception as e:
+                r.violation(f'C12:crossed-design:raises:{type(e).__name__}', f'conditions {vals}: raised {type(e).__name__}: {e}', case=case)
+                continue
+        dr = seams.draws(log)
+        r.ev()
+        if len(dr) == 1 and dr[0][0] == 'multivariate_normal' and len(dr[0][1]) >= 2:
+            mean = np.ravel(np.asarray(dr[0][1][0], float))
+            cov = np.atleast_2d(np.asarray(dr[0][1][1], float))
+            if mean.shape == (1,) and (abs(mean[0] - mu_ref[0]) > 1e-8 or abs(cov[0, 0] - S_ref[0, 0]) > 1e-8):
+                r.violation('C12:crossed-design:conditional-law', f'balanced crossed design (corr(dose, temp) = {C[0, 1]!r}), conditions '
+                            f'{vals}: the normal draw for {free[0]!r} uses mean {mean[0]!r} / variance {cov[0, 0]!r}, the Schur values are '
+                            f'{mu_ref[0]!r} / {S_ref[0, 0]!r}', case=case)
+        else:
+            r.hit('protocol-changed')
+    r.hit('crossed-design')
+    r['sample'] = {'kind': 'crossed design', 'corr_dose_temp': float(C[0, 1])}
+    return r
+
+
 def values_for(df, sub, pattern):
     vals = {}
     for k, c in enumerate(sub):
@@ -214,6 +258,8 @@ def run_case(case):
         return _roundtrip(r, case)
     if hist == 'near-collinear':
         return _near_collinear(r, case)
+    if hist == 'crossed-design':
+        return _crossed_design(r, case)
     df, info = tables.gaussian_copula_table(t, A.shift_from_seed(seed))
     cols = list(df.columns)
     d = len(cols)
